@@ -19,6 +19,7 @@ delay_ms_for_try: min(c//2, max) <= result <= min(c, max) with c = base * 2**min
 """
 from __future__ import annotations
 
+import json
 import os
 
 import z3
@@ -572,6 +573,21 @@ def _first_confirmed(*thunks):
     return r
 
 
+def _builtin_classes(ctx):
+    """'raise any other error immediately', decided by exhaustive enumeration of the finite set of builtin exception classes on the
+    real classifiers and the real async helper (contracts/native/c21_replay.py, mode 'classes'): an errno-less instance of a class
+    that is neither transient nor rate-limit nor one of the two documented limited-retry classes (ConnectionResetError,
+    ConnectionRefusedError) makes the helper call the operation exactly once.  Not a solver obligation: labelled native/enumeration."""
+    r = _native(['classes'])
+    if not isinstance(r, dict) or 'confirmed' not in r or 'classes' not in (r.get('ran') or []) or r.get('classes_probed', 0) < 20:
+        raise core.Undecided('C21 builtin-class enumeration did not run: %r' % (r,))
+    o = core.decided('retry_transient_errors/enumeration/builtin-error-classes-outside-the-documented-ones-are-raised-after-one-call', not r['confirmed'],
+                     'enumerated %d builtin Exception subclasses constructible without arguments on the real code' % r['classes_probed'] if not r['confirmed'] else json.dumps(r)[:600], kind='native-enumeration')
+    if r['confirmed']:
+        o.info['__replay__'] = {'what': r.get('what'), 'input': r.get('input'), 'confirmed': True}
+    ctx.add(o)
+
+
 def native_witness(ctx):
     """concrete search on the real code, usable when the contracts no longer apply to a changed source (vc/check.py)"""
     return _first_confirmed(lambda: core.run_native(REPLAY, {'search': True}), lambda: core.run_native(REPLAY_RETRY, {}), lambda: _native(['chain']), lambda: _native(['body']))
@@ -603,6 +619,7 @@ def build(ctx):
     s.replayer = a.replayer
     s.run()
     _sleep_wrappers(ctx)
+    _builtin_classes(ctx)
     ctx.witness_search = lambda: native_witness(ctx)
     ctx.assume('inside the retry loops is_limited_retries_error / is_rate_limit_error / is_transient_error are uninterpreted predicates of the exception; the classifiers own contracts state only: the http clauses, and that an error of none of the tested classes is classified by its explicit __cause__ chain alone')
     ctx.assume('classifier contracts: isinstance(e, C) is an uninterpreted predicate per class C; RETRYABLE_ERRNOS, socket.EAI_* and (for the chain contracts) the message table are arbitrary; e.args[0] exists where the code reads it (aiohttp.ClientPayloadError)')
@@ -611,4 +628,4 @@ def build(ctx):
     ctx.assume('f is an oracle: any call either returns or raises an arbitrary exception; logging, time_msecs and traceback calls have no effect on control flow')
     ctx.assume('float division by 1000.0 treated as real division (the delay in seconds is only passed to sleep)')
     ctx.assume('sync_retry_transient_errors consults only is_transient_error; the contract for it is "raise iff not transient" with L and R ignored (stated deviation: the property text speaks of the helpers collectively)')
-    ctx.undecided('which concrete exception classes the classifiers count as transient / limited-retry (their class tests); decided are the http clauses, the cause-chain traversal and the origin of e.body')
+    ctx.undecided('which concrete exception classes the classifiers count as transient (their class tests), and limited-retry classification of third-party / argument-carrying classes; decided are the http clauses, the cause-chain traversal, the origin of e.body and - by native enumeration, not by the solver - that no builtin error class outside ConnectionResetError / ConnectionRefusedError is retried by the async helper unless it is transient')
